@@ -329,3 +329,51 @@ def owners_of_calls(P, pred):
     for (f, bb, ci) in P.call_sites(pred):
         res.setdefault(root_of(P, f).npath, []).append((f, bb))
     return res
+
+
+def places_of_rv(rv):
+    k = rv["k"]
+    out = []
+    def op(o):
+        if o["k"] in ("copy", "move"):
+            out.append(o["place"])
+    if k == "use":
+        op(rv["op"])
+    elif k in ("ref", "rawptr", "discr"):
+        out.append(rv["place"])
+    elif k == "bin":
+        op(rv["a"]); op(rv["b"])
+    elif k in ("un",):
+        op(rv["a"])
+    elif k == "cast":
+        op(rv["op"])
+    elif k == "agg":
+        for o in rv["ops"]:
+            op(o)
+    return out
+
+
+def field_reads(S, field):
+    """(node, place) for every place mentioning a projection on `field` read in statements or call args."""
+    res = []
+    for n in S.nodes:
+        for s in n.stmts:
+            if s["k"] == "assign":
+                for pl in places_of_rv(s["rv"]):
+                    if any(isinstance(e, dict) and e.get("n") == field for e in pl["p"]):
+                        res.append((n, pl))
+        t = n.term
+        if t["k"] == "call":
+            for a in t["args"]:
+                if a["k"] in ("copy", "move") and any(isinstance(e, dict) and e.get("n") == field for e in a["place"]["p"]):
+                    res.append((n, a["place"]))
+    return res
+
+
+def field_writes(S, field):
+    res = []
+    for n in S.nodes:
+        for s in n.stmts:
+            if s["k"] == "assign" and any(isinstance(e, dict) and e.get("n") == field for e in s["place"]["p"]):
+                res.append((n, s))
+    return res
